@@ -314,7 +314,11 @@ func (g *Gen) heapSet(st *State, key, sort, term string) {
 
 func (g *Gen) fieldKey(structT types.Type, i int) (key, sort string) {
 	u := structT.Underlying().(*types.Struct)
-	key = fmt.Sprintf("F:%s.%s", typeKey(structT), u.Field(i).Name())
+	fname := u.Field(i).Name()
+	if fname == "_" {
+		fname = fmt.Sprintf("blank%d", i)
+	}
+	key = fmt.Sprintf("F:%s.%s", typeKey(structT), fname)
 	g.keyType[key] = u.Field(i).Type()
 	return key, fmt.Sprintf("(Array Int %s)", g.sortOf(u.Field(i).Type()))
 }
@@ -427,6 +431,9 @@ func (g *Gen) havocAllHeap(st *State, explicit ...map[string]bool) {
 	for _, k := range keys {
 		if strings.HasPrefix(k, "G:") && g.P.constGlobals[k] {
 			continue
+		}
+		if strings.HasPrefix(k, "CC:") {
+			continue // the capacity of a channel never changes
 		}
 		if t, ok := g.keyType[k]; ok {
 			g.sortOf(t) // make sure the sorts are declared in this pass
@@ -716,6 +723,8 @@ func (g *Gen) cellSort(key interface{}) (string, types.Type) {
 		return g.sortOf(t), t
 	case *ssa.Range:
 		return g.idxSort(), intT
+	case *ssa.Defer:
+		return "Bool", nil
 	case string:
 		if s, ok := g.ghostT[k]; ok {
 			return s, nil
@@ -745,6 +754,9 @@ func (g *Gen) merge(ins []inEdge) *State {
 			v, ok := get(e.st)
 			if !ok {
 				v = ""
+				if name == "m_defer" {
+					v = "false" // a deferred call not pushed on this path
+				}
 			}
 			vals = append(vals, v)
 			if i == 0 {
@@ -808,6 +820,9 @@ func (g *Gen) merge(ins []inEdge) *State {
 		name := "m"
 		if a, ok := k.(*ssa.Alloc); ok {
 			name = "m_" + a.Comment
+		}
+		if _, ok := k.(*ssa.Defer); ok {
+			name = "m_defer"
 		}
 		t := mergeTerms(name, srt, func(s *State) (string, bool) { v, ok := s.cells[k]; return v.T, ok })
 		nv := Val{T: t}
@@ -949,6 +964,16 @@ func (g *Gen) loopHead(fr *Frame, st *State, li *loopInfo) {
 		li.eff = g.effectsOf(fr, li.body)
 	}
 	eff := li.eff
+	// ghost variables assigned by anchors whose trigger occurs in this loop
+	for _, c := range []*FuncContract{g.anchorContract(fr), g.con} {
+		if c != nil {
+			for _, s := range c.Sets {
+				if g.setMayFireIn(fr, li, s) {
+					eff.cells["ghost:"+s.Ghost] = true
+				}
+			}
+		}
+	}
 	for k := range eff.cells {
 		v, ok := st.cells[k]
 		if !ok || v.Clo != nil || v.T == "" {
@@ -1172,7 +1197,11 @@ func (g *Gen) instr(fr *Frame, st *State, ins ssa.Instruction) {
 		g.mapInit(st, x.Type(), r)
 		fr.vals[x] = Val{T: r}
 	case *ssa.MakeChan:
-		fr.vals[x] = Val{T: g.allocRef(st, "chan")}
+		g.safety(fr, st, "makechan size", g.cmp(token.LEQ, g.idxLit(0), g.idxOf(g.term(fr, st, x.Size), x.Size.Type()), intT))
+		r := g.allocRef(st, "chan")
+		cs := fmt.Sprintf("(Array Int %s)", g.idxSort())
+		g.heapSet(st, "CC:cap", cs, sx("store", g.heapGet(st, "CC:cap", cs), r, g.idxOf(g.term(fr, st, x.Size), x.Size.Type())))
+		fr.vals[x] = Val{T: r}
 	case *ssa.Lookup:
 		g.lookup(fr, st, x)
 	case *ssa.MapUpdate:
@@ -1194,7 +1223,16 @@ func (g *Gen) instr(fr *Frame, st *State, ins ssa.Instruction) {
 	case *ssa.Go:
 		g.note("goroutine spawn ignored: " + x.Call.String())
 	case *ssa.Defer:
-		fr.defers = append(fr.defers, x)
+		known := false
+		for _, d := range fr.defers {
+			if d == x {
+				known = true
+			}
+		}
+		if !known {
+			fr.defers = append(fr.defers, x)
+		}
+		st.cells[x] = Val{T: "true"} // pushed on this path
 	case *ssa.RunDefers:
 		g.runDefers(fr, st)
 	case *ssa.Phi:
@@ -1292,9 +1330,12 @@ func (g *Gen) unop(fr *Frame, st *State, x *ssa.UnOp) {
 		if x.CommaOk {
 			ok := g.freshConst("recvok", "Bool")
 			g.recvAssume(fr, st, x.X, v, et, ok)
-			fr.vals[x] = Val{Tuple: []Val{{T: ite(ok, v, g.zero(et))}, {T: ok}}}
+			rv := g.define("recvv", g.sortOf(et), ite(ok, v, g.zero(et)))
+			g.recvSets(fr, st, x.X, rv, et, ok, "true")
+			fr.vals[x] = Val{Tuple: []Val{{T: rv}, {T: ok}}}
 		} else {
 			g.recvAssume(fr, st, x.X, v, et, "true")
+			g.recvSets(fr, st, x.X, v, et, "true", "true")
 			fr.vals[x] = Val{T: v}
 		}
 	default:
@@ -1668,7 +1709,9 @@ func (g *Gen) selectInstr(fr *Frame, st *State, x *ssa.Select) {
 			g.assume(st, g.wf(v, et))
 			g.assume(st, g.allocatedIn(v, et, st.top, 0))
 			g.recvAssume(fr, st, s.Chan, v, et, and(chosen, selok))
-			tuple = append(tuple, Val{T: ite(and(chosen, selok), v, g.zero(et))})
+			rv := g.define("selv", g.sortOf(et), ite(and(chosen, selok), v, g.zero(et)))
+			g.recvSets(fr, st, s.Chan, rv, et, selok, chosen)
+			tuple = append(tuple, Val{T: rv})
 		} else if s.Dir == types.SendOnly {
 			// the send happens only if this arm is chosen: check anchors under that condition
 			sub := st.clone()
@@ -1691,10 +1734,27 @@ func (g *Gen) selectInstr(fr *Frame, st *State, x *ssa.Select) {
 	fr.vals[x] = Val{Tuple: tuple}
 }
 
+// runDefers executes, in reverse order, the deferred calls that were pushed on the path(s) summarised by st.
 func (g *Gen) runDefers(fr *Frame, st *State) {
 	for i := len(fr.defers) - 1; i >= 0; i-- {
 		d := fr.defers[i]
-		g.call(fr, st, d.Common(), nil)
+		cond := "false"
+		if v, ok := st.cells[d]; ok && v.T != "" {
+			cond = v.T
+		}
+		switch cond {
+		case "false":
+			continue
+		case "true":
+			g.call(fr, st, d.Common(), nil)
+		default:
+			ran := st.clone()
+			g.assume(ran, cond)
+			g.call(fr, ran, d.Common(), nil)
+			skipped := st.clone()
+			g.assume(skipped, not(cond))
+			*st = *g.merge([]inEdge{{nil, ran}, {nil, skipped}})
+		}
 	}
 }
 
@@ -1710,4 +1770,68 @@ func (g *Gen) constArray(arrSort, idxSort, val string) string {
 	a := g.freshConst("zeros", arrSort)
 	g.sc.addAxiom([]string{a}, fmt.Sprintf("(assert (forall ((i %s)) (! (= (select %s i) %s) :pattern ((select %s i)))))", idxSort, a, val, a))
 	return a
+}
+
+// setMayFireIn: can the ghost assignment s be triggered inside loop li of frame fr?
+// Conservative: any call to a function with a body that is not replaced by a contract counts.
+func (g *Gen) setMayFireIn(fr *Frame, li *loopInfo, s *AnchorSet) bool {
+	if s.Loop > 0 {
+		for _, other := range fr.loops {
+			if other.ordinal == s.Loop && li.body[other.header] {
+				return true
+			}
+		}
+		return false
+	}
+	for b := range li.body {
+		for _, in := range b.Instrs {
+			switch x := in.(type) {
+			case *ssa.Store:
+				if a, ok := x.Addr.(*ssa.Alloc); ok && s.Store != "" && a.Comment == s.Store {
+					return true
+				}
+			case *ssa.Send:
+				if s.Send != "" && g.chanName(fr, x.Chan) == s.Send {
+					return true
+				}
+			case *ssa.UnOp:
+				if x.Op == token.ARROW && s.Recv != "" && g.chanName(fr, x.X) == s.Recv {
+					return true
+				}
+			case *ssa.Select:
+				for _, ss := range x.States {
+					n := g.chanName(fr, ss.Chan)
+					if (ss.Dir == types.SendOnly && s.Send != "" && n == s.Send) || (ss.Dir == types.RecvOnly && s.Recv != "" && n == s.Recv) {
+						return true
+					}
+				}
+			case *ssa.Call:
+				c := x.Common()
+				if c.IsInvoke() {
+					continue
+				}
+				if _, isB := c.Value.(*ssa.Builtin); isB {
+					continue
+				}
+				callee := g.staticClosure(fr, c.Value)
+				if callee == nil {
+					continue
+				}
+				nm := callee.Name()
+				if callee.Parent() != nil {
+					nm = closureVarName(callee)
+				}
+				if s.Call != "" && nm == s.Call {
+					return true
+				}
+				// an inlined closure may contain any trigger
+				con := g.P.contracts[funcKey(callee)]
+				inlined := callee.Parent() != nil && (con == nil || con.Inline || (len(con.Ensures) == 0 && len(con.Requires) == 0 && !con.HasModifies))
+				if inlined {
+					return true
+				}
+			}
+		}
+	}
+	return false
 }
